@@ -1,1 +1,296 @@
 //! verification hooks used by the check of property C13
+//!
+//! Read-only views of the session's `PrefixParser` (which identifier resolves to which
+//! prefix and unit, the table of registered unit aliases, the prefix table), a thin wrapper
+//! that lets the harness drive a stand-alone `PrefixParser` through its real API, and the
+//! displayed text of a prefixed unit. Nothing in here changes behaviour.
+
+use crate::name_resolution::NameResolutionError;
+use crate::prefix::Prefix;
+use crate::prefix_parser::{AcceptsPrefix, AliasSpanInfo, PrefixParser, PrefixParserResult};
+use crate::span::{ByteIndex, Span};
+use crate::Context;
+
+/// `Prefix` as plain data: `binary == false` is `Prefix::Metric(exp)`
+#[derive(Debug, Clone, Copy, PartialEq, Eq, PartialOrd, Ord, Hash)]
+pub struct PrefixV {
+    pub binary: bool,
+    pub exp: i32,
+}
+
+impl PrefixV {
+    fn of(p: Prefix) -> PrefixV {
+        match p {
+            Prefix::Metric(n) => PrefixV {
+                binary: false,
+                exp: n,
+            },
+            Prefix::Binary(n) => PrefixV {
+                binary: true,
+                exp: n,
+            },
+        }
+    }
+
+    fn to_prefix(self) -> Prefix {
+        if self.binary {
+            Prefix::Binary(self.exp)
+        } else {
+            Prefix::Metric(self.exp)
+        }
+    }
+
+    /// `Prefix::as_string_short` / `Prefix::as_string_long`
+    pub fn text(self, short: bool) -> String {
+        if short {
+            self.to_prefix().as_string_short().to_string()
+        } else {
+            self.to_prefix().as_string_long().to_string()
+        }
+    }
+}
+
+/// what `PrefixParser::parse` says about an identifier
+#[derive(Debug, Clone, PartialEq, Eq)]
+pub enum Resolved {
+    /// `PrefixParserResult::Identifier`
+    Plain,
+    /// `PrefixParserResult::UnitIdentifier` (without the span)
+    Unit {
+        prefix: PrefixV,
+        alias: String,
+        full_name: String,
+    },
+}
+
+fn resolved_of(r: PrefixParserResult<'_>) -> Resolved {
+    match r {
+        PrefixParserResult::Identifier(_) => Resolved::Plain,
+        PrefixParserResult::UnitIdentifier(_, prefix, alias, full_name) => Resolved::Unit {
+            prefix: PrefixV::of(prefix),
+            alias: alias.to_string(),
+            full_name: full_name.to_string(),
+        },
+    }
+}
+
+/// one registered unit alias
+#[derive(Debug, Clone, PartialEq, Eq)]
+pub struct AliasRow {
+    pub alias: String,
+    pub short: bool,
+    pub long: bool,
+    pub metric: bool,
+    pub binary: bool,
+    pub full_name: String,
+}
+
+/// one row of `PrefixParser::prefixes()` together with what `Prefix::as_string_*` print for it
+#[derive(Debug, Clone, PartialEq, Eq)]
+pub struct PrefixRow {
+    pub long: String,
+    pub shorts: Vec<String>,
+    pub prefix: PrefixV,
+    pub text_short: String,
+    pub text_long: String,
+}
+
+/// the prefix table of the prefix parser, in its own order
+pub fn prefix_rows() -> Vec<PrefixRow> {
+    PrefixParser::verif_c13_prefixes()
+        .into_iter()
+        .map(|(long, shorts, prefix)| PrefixRow {
+            long,
+            shorts,
+            prefix: PrefixV::of(prefix),
+            text_short: prefix.as_string_short().to_string(),
+            text_long: prefix.as_string_long().to_string(),
+        })
+        .collect()
+}
+
+/// outcome of a definition call on the prefix parser
+#[derive(Debug, Clone, PartialEq, Eq)]
+pub enum AddError {
+    Reserved,
+    /// `IdentifierClash` with the conflicting identifier
+    Clash(String),
+}
+
+fn add_error_of(e: NameResolutionError) -> AddError {
+    match e {
+        NameResolutionError::ReservedIdentifier(_) => AddError::Reserved,
+        NameResolutionError::IdentifierClash {
+            conflicting_identifier,
+            ..
+        } => AddError::Clash(conflicting_identifier),
+    }
+}
+
+fn dummy_span() -> Span {
+    Span {
+        start: ByteIndex(0),
+        end: ByteIndex(0),
+        code_source_id: 0,
+    }
+}
+
+fn rows_of(pp: &PrefixParser) -> Vec<AliasRow> {
+    pp.verif_c13_units()
+        .into_iter()
+        .map(|(alias, short, long, metric, binary, full_name)| AliasRow {
+            alias,
+            short,
+            long,
+            metric,
+            binary,
+            full_name,
+        })
+        .collect()
+}
+
+/// a `PrefixParser` of its own, driven through the real API
+#[derive(Clone)]
+pub struct Parser(PrefixParser);
+
+impl Default for Parser {
+    fn default() -> Self {
+        Parser::new()
+    }
+}
+
+impl Parser {
+    pub fn new() -> Parser {
+        Parser(PrefixParser::new())
+    }
+
+    pub fn add_unit(
+        &mut self,
+        alias: &str,
+        short: bool,
+        long: bool,
+        metric: bool,
+        binary: bool,
+        full_name: &str,
+    ) -> Result<(), AddError> {
+        self.0
+            .add_unit(
+                alias,
+                AcceptsPrefix { short, long },
+                metric,
+                binary,
+                full_name,
+                AliasSpanInfo {
+                    name_span: dummy_span(),
+                    alias_span: dummy_span(),
+                },
+            )
+            .map_err(add_error_of)
+    }
+
+    pub fn add_other_identifier(&mut self, identifier: &str) -> Result<(), AddError> {
+        self.0
+            .add_other_identifier(identifier, dummy_span())
+            .map_err(add_error_of)
+    }
+
+    pub fn add_shadowing_identifier(&mut self, identifier: &str) -> Result<(), AddError> {
+        self.0
+            .add_shadowing_identifier(identifier, dummy_span())
+            .map_err(add_error_of)
+    }
+
+    pub fn parse(&self, identifier: &str) -> Resolved {
+        resolved_of(self.0.parse(identifier))
+    }
+
+    /// registered unit aliases in registration order
+    pub fn units(&self) -> Vec<AliasRow> {
+        rows_of(&self.0)
+    }
+
+    /// other identifiers, sorted
+    pub fn others(&self) -> Vec<String> {
+        self.0.verif_c13_others()
+    }
+
+    pub fn reserved(&self) -> Vec<String> {
+        self.0.verif_c13_reserved()
+    }
+}
+
+impl Context {
+    /// resolve an identifier with the session's prefix parser
+    pub fn verif_resolve(&self, identifier: &str) -> Resolved {
+        resolved_of(self.prefix_transformer.prefix_parser.parse(identifier))
+    }
+
+    /// every registered unit alias with the prefixes it accepts, in registration order
+    pub fn verif_prefix_table(&self) -> Vec<AliasRow> {
+        rows_of(&self.prefix_transformer.prefix_parser)
+    }
+
+    /// identifiers known to the session's prefix parser that are not units, sorted
+    pub fn verif_other_identifiers(&self) -> Vec<String> {
+        self.prefix_transformer.prefix_parser.verif_c13_others()
+    }
+
+    /// a copy of the session's prefix parser
+    pub fn verif_prefix_parser(&self) -> Parser {
+        Parser(self.prefix_transformer.prefix_parser.clone())
+    }
+
+    /// (unit name, canonical name, canonical accepts short, canonical accepts long, metric,
+    /// binary, aliases with (short, long)) for every unit of the registry, sorted by unit name
+    #[allow(clippy::type_complexity)]
+    pub fn verif_canonical_names(
+        &self,
+    ) -> Vec<(
+        String,
+        String,
+        bool,
+        bool,
+        bool,
+        bool,
+        Vec<(String, bool, bool)>,
+    )> {
+        let mut v: Vec<_> = self
+            .unit_representations()
+            .map(|(name, (_, md))| {
+                (
+                    name.to_string(),
+                    md.canonical_name.name.to_string(),
+                    md.canonical_name.accepts_prefix.short,
+                    md.canonical_name.accepts_prefix.long,
+                    md.metric_prefixes,
+                    md.binary_prefixes,
+                    md.aliases
+                        .iter()
+                        .map(|(a, ap)| (a.to_string(), ap.short, ap.long))
+                        .collect(),
+                )
+            })
+            .collect();
+        v.sort();
+        v
+    }
+
+    /// The text the unit denoted by `identifier` is displayed with: the identifier is resolved
+    /// by the session's prefix parser, the unit value is built the way the VM builds it
+    /// (`LoadConstant` of the unit, `ApplyPrefix`), and formatted with `Display for Unit`.
+    /// `None` if the identifier is not a unit (or the unit has not been defined at run time).
+    pub fn verif_prefixed_unit_text(&self, identifier: &str) -> Option<String> {
+        match self.prefix_transformer.prefix_parser.parse(identifier) {
+            PrefixParserResult::Identifier(_) => None,
+            PrefixParserResult::UnitIdentifier(_, prefix, alias, _) => {
+                let unit = self.interpreter.get_defining_unit(&alias)?.clone();
+                let unit = if prefix != Prefix::none() {
+                    unit.with_prefix(prefix)
+                } else {
+                    unit
+                };
+                Some(unit.to_string())
+            }
+        }
+    }
+}
